@@ -267,6 +267,64 @@ impl NodeState {
 // ---------------------------------------------------------------------------------------------------
 // jsonrpc transport
 
+/// Threads (requests / polls running on their own thread while the node is away) that are HELD at their next node RPC that
+/// would be answered, until the rig joins them.  Without it the moment a blocked thread resumes after the node is back races
+/// with the rig's next snapshot (which event shows its effects depended on the machine's load).  An RPC that is going to
+/// fail is never held: an outage must be noticed when it happens.
+pub static HELD: Mutex<Option<std::collections::HashSet<std::thread::ThreadId>>> = Mutex::new(None);
+/// threads currently running a spawned call
+pub static INFLIGHT: Mutex<Option<std::collections::HashSet<std::thread::ThreadId>>> = Mutex::new(None);
+
+pub fn inflight_enter() {
+    INFLIGHT.lock().unwrap().get_or_insert_with(Default::default).insert(std::thread::current().id());
+}
+
+pub fn inflight_exit() {
+    let id = std::thread::current().id();
+    if let Some(s) = INFLIGHT.lock().unwrap().as_mut() {
+        s.remove(&id);
+    }
+    if let Some(s) = HELD.lock().unwrap().as_mut() {
+        s.remove(&id);
+    }
+}
+
+/// the node is back: from now on every call that is in flight waits at its next answered RPC until it is joined
+pub fn hold_inflight() {
+    let cur = INFLIGHT.lock().unwrap().clone().unwrap_or_default();
+    HELD.lock().unwrap().get_or_insert_with(Default::default).extend(cur);
+}
+
+pub fn release(id: std::thread::ThreadId) {
+    if let Some(s) = HELD.lock().unwrap().as_mut() {
+        s.remove(&id);
+    }
+}
+
+pub fn release_all() {
+    *HELD.lock().unwrap() = None;
+}
+
+fn gate_wait(node: &Node) {
+    let me = std::thread::current().id();
+    let t0 = std::time::Instant::now();
+    loop {
+        if !HELD.lock().unwrap().as_ref().map(|s| s.contains(&me)).unwrap_or(false) {
+            return;
+        }
+        {
+            let n = node.lock().unwrap();
+            if !n.up || !n.rpc_up {
+                return;
+            }
+        }
+        if t0.elapsed() > std::time::Duration::from_secs(60) {
+            return;
+        }
+        std::thread::sleep(std::time::Duration::from_millis(2));
+    }
+}
+
 pub struct SimTransport(pub Node);
 
 #[derive(Debug)]
@@ -286,6 +344,7 @@ impl jsonrpc::client::Transport for SimTransport {
     fn send_request(&self, req: jsonrpc::Request) -> Result<jsonrpc::Response, jsonrpc::Error> {
         // crash points immediately before / after every node RPC (never while holding the node's own lock)
         crate::conc::rpc_yield();
+        gate_wait(&self.0);
         {
             // a bare HTTP error is no verdict about the transaction: the transport reports it as its own error kind
             let mut node = self.0.lock().unwrap();
